@@ -7,6 +7,7 @@ import (
 	"sync/atomic"
 
 	"github.com/rs/zerolog/log"
+	"google.golang.org/grpc/codes"
 	"google.golang.org/grpc/encoding"
 	"google.golang.org/grpc/encoding/proto"
 	"google.golang.org/grpc/stats"
@@ -131,7 +132,9 @@ func (rm *RpcMultiplexer) CallUnaryMethod(
 				Header:     headers,
 			})
 		}
-		if resp.Status != nil {
+		// A status is an error only if its code says so: a reply may carry an
+		// explicit OK status together with its body.
+		if resp.Status != nil && resp.Status.Code != int32(codes.OK) {
 			return nil, status.FromProto(&spb.Status{
 				Code:    resp.Status.Code,
 				Message: resp.Status.Message,
